@@ -288,5 +288,69 @@ class ManifestTopLevel(Target):
         return [('leftmost-path-segment-of-every-key', list(out.value) == [k.split('/', 1)[0] for k in st.keys])]
 
 
+class ReferenceClassesBounded:
+    """BOUNDED stand-in (native enumeration, never counted as proved) for the two classes that wrap the parser and the
+    printer: graph.DataReference (absoluteReference / relativeReference) and graph.ComponentIdentifier (identifier,
+    namespace, to_uid): printing what was parsed gives the absolute spelling, the relative spelling with its stage
+    denotes the same reference, and the uid escaping can be undone."""
+    name = 'reference-classes[bounded]'
+    STAGES = [0, 1, 12]
+    PRODUCERS = ['a', 'comp-1', 'x.y', 'stage1a', '0#loop', 'CamelCase_2']
+    FILES = [None, 'f.txt', 'dir/f.txt', 'with space.txt']
+
+    def run(self, tier='quick', seed=0):
+        import experiment.model.graph as graph_mod
+        bad, cases = [], 0
+        for st in self.STAGES:
+            for prod in self.PRODUCERS:
+                cid = graph_mod.ComponentIdentifier('stage%d.%s' % (st, prod))
+                cases += 1
+                facts = {"identifier": cid.identifier == 'stage%d.%s' % (st, prod), "namespace": cid.namespace == 'stage%d' % st,
+                         "componentName": cid.componentName == prod, "stageIndex": cid.stageIndex == st,
+                         "relative+stage": graph_mod.ComponentIdentifier(prod, st).identifier == cid.identifier}
+                for tricky in ('%', '&', '%26', 'a&b%c'):
+                    c2 = graph_mod.ComponentIdentifier('stage%d.%s%s' % (st, prod, tricky))
+                    uid = c2.to_uid('file://gw/abs/inst')
+                    inst, _, ref = uid.partition('&')
+                    facts['uid:' + tricky] = inst == 'file://gw/abs/inst' and '&' not in ref and \
+                        ref.replace('%26', '&').replace('%25', '%') == c2.identifier
+                for k, ok in facts.items():
+                    if not ok:
+                        bad.append({"what": "ComponentIdentifier stage%d.%s: %s" % (st, prod, k), "replay": self._replay(st, prod, None, None, k)})
+                for f in self.FILES:
+                    for method in graph_mod.DataReference.methods:
+                        cases += 1
+                        tail = ('/' + f if f else '') + ':' + method
+                        absolute, relative = 'stage%d.%s%s' % (st, prod, tail), '%s%s' % (prod, tail)
+                        try:
+                            da = graph_mod.DataReference(absolute)
+                            dr = graph_mod.DataReference(relative, st)
+                            facts = {"print(parse(abs))": da.absoluteReference == absolute, "relative-of-abs": da.relativeReference == relative,
+                                     "abs-of-relative": dr.absoluteReference == absolute, "string": da.stringRepresentation == absolute,
+                                     "parts": (da.producerIdentifier.identifier, da.fileRef, da.method) == ('stage%d.%s' % (st, prod), f, method),
+                                     "equal": da == dr and hash(da) == hash(dr)}
+                        except Exception as err:
+                            facts = {"no-exception (%s: %s)" % (type(err).__name__, err): False}
+                        for k, ok in facts.items():
+                            if not ok:
+                                bad.append({"what": "DataReference %s: %s" % (absolute, k), "replay": self._replay(st, prod, f, method, k)})
+        return {"name": self.name, "bounded": True,
+                "bound": "%d stages x %d producer names x %d files x %d methods" % (len(self.STAGES), len(self.PRODUCERS), len(self.FILES),
+                                                                                 len(flowir_mod.FlowIR.data_reference_methods)),
+                "cases": cases, "violations": bad[:3], "summary": "%d references, %d mismatches" % (cases, len(bad))}
+
+    def _replay(self, st, prod, f, method, what):
+        import json
+        base = os.environ.get('PYVC_OUT') or os.path.dirname(os.path.dirname(os.path.abspath(__file__)))
+        p = os.path.join(base, 'replays', 'C09')
+        os.makedirs(p, exist_ok=True)
+        fn = os.path.join(p, 'reference_classes.json')
+        json.dump({"property": "C09", "check": self.name, "stage": st, "producer": prod, "file": f, "method": method, "failed": what,
+                   "how": "experiment.model.graph.DataReference / ComponentIdentifier on the strings built from these parts"},
+                  open(fn, 'w'), indent=1)
+        return fn
+
+
 TARGETS = [CompileReference(), ParsePrint(), Classify(), NonComponentForms(), Expand(), ExpandIdempotent(), ManifestTopLevel()]
 LEMMAS = []
+BOUNDED = [ReferenceClassesBounded()]
